@@ -398,12 +398,12 @@ PROFILES = {
     "dur": dict(durs=[1, 7, 10, "DYN", 0], pads=["E0", "Arel"], args=["bad"], sizes=[]),
     # terminal resizes between receptions of (equal) terminal-relative paddings
     "resize": dict(durs=[0], pads=["E0", "Arel", "Arel2"], args=["bad"], sizes=[(1, 1)], terms=[TERM, TERM2]),
-    "args": dict(durs=[0], pads=["E0", "E1010"], args=["t1", "t2", "tm1", "tm2", "base", "bad"], sizes=[]),
+    "args": dict(durs=[0], pads=["E0", "E1010"], args=["t1", "tm1", "tm2", "base", "bad"], sizes=[]),
     "size": dict(durs=[0], pads=["E1010", "A32"], args=["bad"], sizes=[(1, 1), (2, 1), (2, 2)]),
     # every cached profile offers at least two paddings that differ from each other (a padded frame stored in
     # the cache only shows after the padding changed to another one that pads)
     # ... and two that pad to the SAME size with different output (a memo keyed by the padded size)
-    "one": dict(durs=[0], pads=["E0", "E1010", "E2000", "A32"], args=["tm1", "tm2", "bad"], sizes=[]),
+    "one": dict(durs=[0], pads=["E0", "E1010", "E2000"], args=["tm1", "tm2", "bad"], sizes=[]),
     "pad": dict(durs=[0], pads=["E0", "E1010", "E2000", "A32", "Arel", "Arel2"], args=["bad"], sizes=[(1, 1)]),
 }
 
